@@ -175,6 +175,36 @@ HISTORY = {
     'C18_R': 'missed at first; caught by the block-walk rule (a block with an optional second line is not walked from a fixed offset)',
     'C20_P': 'missed at first (roundings in api/ were treated like those of an oracle module); caught after the module filter was corrected',
     'C20_Q': 'missed at first; caught by the identity-comparison rule (x is <string constant>)',
+    # round 9 (ids V/W/X)
+    'C01_V': 'UNDECIDED at first; caught by the antimeridian mirror points (an explicit zone across the 180 degree meridian: easting opposite, northing equal) after copysign was modelled',
+    'C02_W': 'UNDECIDED at first; caught after floor / ceil folded on constants and the first meridians of AMG zones 55 / 56 joined the ISG lattice',
+    'C04_X': 'UNDECIDED at first; caught after guard conditions were evaluated through definition atoms and trigonometric forms (decimal evaluation) with interior and quarter-point witnesses',
+    'C06_W': 'missed at first; caught by the chained-index rule (m[i][j] on a matrix argument)',
+    'C06_X': 'missed at first; caught after a copy of an array kept the element type of what it copies (R-DTYPE)',
+    'C07_V': 'missed at first; C07 now runs the point formula of conform7',
+    'C07_W': 'UNDECIDED at first; caught after methods were looked up through base classes and a subclass result was held against the exact-type guards of conform7 / conform14',
+    'C07_X': 'UNDECIDED at first; caught after `%.8g` % x was modelled as a significant-figure rounding',
+    'C08_X': 'missed at first; caught by the resolution-threshold sibling rule (vector twin against scalar converter)',
+    'C09_W': 'missed at first; caught after filter changes inside warnings.catch_warnings() counted as process-wide state (the block is not thread-safe)',
+    'C11_W': 'missed at first; caught by the receiver-unchanged rule for the methods of Transformation',
+    'C11_X': 'ANALYSIS-ERROR (instance floor) at first; a catalogue name bound to a tuple is now a violation',
+    'C12_V': 'missed at first; C12 now runs the field arithmetic rules of dec2dms / dec2ddm',
+    'C12_X': 'missed at first; caught after raises reached on lattice objects were recorded (a minutes field of 60 is what round() builds)',
+    'C13_V': 'UNDECIDED at first; C13 now runs the conform7 rules of C06 (Jacobian columns)',
+    'C13_X': 'missed at first; caught by the zero-variance guard rule',
+    'C15_V': 'UNDECIDED at first; caught by the late-binding rule (lambdas in a comprehension read the loop variable when called)',
+    'C15_W': 'missed at first; caught by the stored-as-given rule (Projection has no __eq__: a copy of the ISG is not the ISG)',
+    'C16_V': 'missed at first; caught after the unclamped-root rule looked through local names',
+    'C16_W': 'UNDECIDED at first; C16 now runs the module-state rule on its functions (one-shot iterator at module level)',
+    'C16_X': 'missed at first; caught by the bit-exact-symmetry guard rule',
+    'C17_W': 'missed at first; caught by the one-shot-iterator rule (a probe with next() takes the first candidate away from min())',
+    'C17_X': 'missed at first; caught by the padding rule for NTv2 text values (blank AND NUL padding removed)',
+    'C18_W': 'UNDECIDED at first; caught by the rule for clock reads in default values (evaluated once, at import)',
+    'C18_X': 'UNDECIDED at first; caught by the index-array rule (numpy.array of an empty list is float64)',
+    'C19_V': 'missed at first; caught by the vapour-pressure formulas on both paths (relative humidity and wet bulb)',
+    'C19_X': 'missed at first; caught by the logarithm-domain rule (log of the humidity at 0 %); the formula itself is reported undecided, not different (numeric veto)',
+    'C20_W': 'missed at first; caught by the late-binding rule (a generator expression consumed after a local it reads was re-bound)',
+    'C20_X': 'missed at first; caught by the request-hook rule (a before_request hook that answers in the handler\'s place)',
     # round 8 (ids S/T/U)
     'C01_S': 'UNDECIDED at first; caught after user-defined projections (odd and fractional zone widths) joined the zone / central-meridian lattice',
     'C01_T': 'missed at first; caught after object equality was modelled (a class __eq__ is invoked, otherwise identity) and a projection with the ISG false origin but another layout joined the lattice',
